@@ -166,7 +166,10 @@ JOIN = [None]
 def sym_join(parts):
     if JOIN[0] is not None:
         return JOIN[0](parts)
-    return "".join(parts)
+    r = "".join(parts)
+    if any(type(p) is symx.TaintedStr for p in parts):
+        return symx.TaintedStr(r)
+    return r
 
 
 SIMPLE_CALLS = {}  # name -> list of handlers
